@@ -161,6 +161,33 @@ def run(ctx):
             ctx.violate(clause, cause, {"op": line if len(line) < 300 else line[:300] + "...", "frames": [f.desc() for f in frames],
                                         "api": api, "fire": fire, "ctl": ctl, "skip": skip},
                         want[:6], outs[:6], size=len(frames) * 10 + sum(len(f.data) for f in frames))
+    run_app_bursts(ctx)
+
+
+def run_app_bursts(ctx):
+    """the same reassembly through the application loop (`WebSocketApp.run_forever`, plain and TLS-style transports): several
+    frames of fragmented messages — with a ping between two fragments — arrive in ONE segment / TLS record, then the server
+    waits; every message reaches on_message once, in order, whole.  Real runs under the virtual-time scheduler, oracle only."""
+    import appcheck
+    from props import c13
+    scs = []
+    for word in (["U"], ["U", "U"], ["t", "U", "b"], ["T", "U"], ["U", "B", "U"], ["H", "U"]):
+        for end in ("silence", "eof"):
+            for ssl in (False, True):
+                sc = c13.scenario(word, end, ssl)
+                sc["tag"] = f"{''.join(word)}|{end}+burst"
+                scs.append(sc)
+    for sc, r in zip(scs, appcheck.run_real_many(scs)):
+        want = []
+        for ev in sc["runs"][0][0][1]:
+            if ev[2] in "tTbB":
+                want.append(("s" if ev[2] in "tT" else "b") + (ev[3] or "-"))
+        got = [it.partition(":")[2][len("cb:on_message:"):] for it in (r["trace"].split(";") if r["trace"] else [])
+               if it.partition(":")[2].startswith("cb:on_message:")]
+        ctx.case(key=("app-burst", sc["tag"], sc["ssl"]), nontrivial=True, cls=f"app-burst:ssl={int(bool(sc['ssl']))}")
+        if got != want:
+            ctx.violate("reassembled-once-in-order", "message-stuck-behind-a-burst-in-the-application-loop", sc,
+                        want, f"{got}; trace …{r['trace'][-240:]}", size=len(want) + 2)
 
 
 def search(ctx):
